@@ -1,5 +1,6 @@
 import Tmv.Drv.Core
 import Tmv.Model.BlockSync
+import Tmv.Model.BlockSyncV2
 /-! Line-protocol driver for C13 (block sync): runs `Tmv.BlockSync` on the op lines the Go stream
 executes on the real blockchain/v0 reactor + pool. Signatures arrive as validity bits computed by
 the harness from the real keys (`sigOK _ _ s := s = 1`); block ids as 32-bit prefixes of the real
@@ -109,9 +110,10 @@ def showPeers (p : Pool) : String :=
   if ps.isEmpty then "-" else
   ",".intercalate (ps.map fun q => s!"{q.id}:{q.base}:{q.height}:{q.numPending}")
 
-def showStore (n : Node) : String :=
-  let es := n.store.reverse
-  s!"state={n.st.lastHeight}:{showId n.st.lastId} blocks=" ++
+
+def showStoreOf (st : St) (store : List (Block × Commit)) : String :=
+  let es := store.reverse
+  s!"state={st.lastHeight}:{showId st.lastId} blocks=" ++
     (if es.isEmpty then "-" else
       ";".intercalate (es.map fun (b, c) => s!"{b.height}:{showId b.id}:{showId c.blockId}:{showSigs c.sigs}"))
 
@@ -197,29 +199,80 @@ def stepNode (n : Node) (toks : List String) : Node × String :=
     (n, s!"h={n.pool.height} pending={n.pool.numPending} reqs={showReqs n.pool} " ++
       s!"max={n.pool.maxPeerHeight} caught={n.pool.isCaughtUp} peers={showPeers n.pool} " ++
       s!"conn={natList (sortNat n.connected)}")
-  | ["store"] => (n, showStore n)
+  | ["store"] => (n, showStoreOf n.st n.store)
   | ["handover"] => (n, showPanic n (n.handover sigOK))
   | ["restart"] =>
     let (n', r) := n.restart sigOK
     (n', if r = .ok then s!"ok h={n'.pool.height}" else showPanic n r)
   | _ => (n, "bad-op")
 
-def step (s : Option Node) (toks : List String) : Option Node × String :=
+def showV2Out : V2.Out → String
+  | .noOp => "noop"
+  | .finished k => s!"finished synced={k}"
+  | .failure h p1 p2 => s!"failure h={h} p1={p1} p2={p2}"
+  | .processed h p => s!"processed h={h} p={p}"
+  | .panicDup => "panic-dup"
+  | .panicApply => "panic-apply"
+
+/-- ops of the blockchain/v2 processor stream -/
+def stepV2 (p : V2.Pc) (toks : List String) : V2.Pc × String :=
+  let ev (e : V2.Ev) : V2.Pc × String :=
+    if p.dead then (p, "dead") else
+    let (p', o) := p.handle sigOK e
+    (p', showV2Out o)
+  match toks with
+  | "v2block" :: rest =>
+    match getNat rest "p", parseBlock rest with
+    | some id, some b => if b.malformed then (p, "bad-op") else ev (.blockReceived id (some b))
+    | _, _ => (p, "bad-op")
+  | "v2nil" :: rest =>
+    match getNat rest "p" with
+    | some id => ev (.blockReceived id none)
+    | none => (p, "bad-op")
+  | "v2peererr" :: rest =>
+    match getNat rest "p" with
+    | some id => ev (.peerError id)
+    | none => (p, "bad-op")
+  | ["v2finished"] => ev .scFinished
+  | ["v2process"] => ev .processBlock
+  | ["v2store"] => (p, showStoreOf p.st p.store)
+  | ["v2show"] => (p, s!"q={p.queue.length} draining={p.draining} synced={p.blocksSynced} dead={p.dead}")
+  | _ => (p, "bad-op")
+
+structure S where
+  v0 : Option Node := none
+  v2 : Option V2.Pc := none
+
+def parseInit (rest : List String) : Option St :=
+  match (kv rest "vals").bind parseVals, (kv rest "ih").bind String.toNat? with
+  | some vals, some ih =>
+    if vals.isEmpty || ih = 0 then none else some ⟨ih, 0, BlockId.zero, vals, vals, []⟩
+  | _, _ => none
+
+def step (s : S) (toks : List String) : S × String :=
   match toks with
   | "init" :: rest =>
-    match (kv rest "vals").bind parseVals, (kv rest "ih").bind String.toNat? with
-    | some vals, some ih =>
-      if vals.isEmpty || ih = 0 then (s, "bad-op") else
-      let st : St := ⟨ih, 0, BlockId.zero, vals, vals, []⟩
+    match parseInit rest with
+    | some st =>
       let n := Node.new st
-      (some n, s!"ok h={n.pool.height}")
-    | _, _ => (s, "bad-op")
-  | _ =>
-    match s with
-    | some n => let (n', o) := stepNode n toks; (some n', o)
+      ({ s with v0 := some n }, s!"ok h={n.pool.height}")
     | none => (s, "bad-op")
+  | "v2init" :: rest =>
+    match parseInit rest with
+    | some st => ({ s with v2 := some (V2.Pc.new st) }, s!"ok h={st.lastHeight}")
+    | none => (s, "bad-op")
+  | t :: _ =>
+    if t.startsWith "v2" then
+      match s.v2 with
+      | some p => let (p', o) := stepV2 p toks; ({ s with v2 := some p' }, o)
+      | none => (s, "bad-op")
+    else
+      match s.v0 with
+      | some n => let (n', o) := stepNode n toks; ({ s with v0 := some n' }, o)
+      | none => (s, "bad-op")
+  | [] => (s, "bad-op")
 
-def machine : Machine := { σ := Option Node, init := none, step := step }
+def machine : Machine := { σ := S, init := {}, step := step }
 
 end Tmv.Drv.C13
 
